@@ -350,13 +350,43 @@ for mi, mat in enumerate(mats):
 # --------------------------------------------------------------------------- helpers
 KINDS = {"fs": InterfaceKind.fluid_solid, "sf": InterfaceKind.solid_fluid}
 MODES = {"L": Mode.L, "T": Mode.T}
+def expected_helper(helper, kind, m_in, m_out, unit, al, mat):
+    """spec of the per-interface helpers: the coefficient selected from the core function for the requested
+    modes, times the documented impedance / velocity ratio in displacement units"""
+    rho_f, v_f, rho_s, v_l, v_t = mat
+    if kind == "fs":
+        trip = model.fluid_solid(al, rho_f, rho_s, v_f, v_l, v_t)
+        sel = trip[0] if helper == "rf" else (trip[1] if m_out == "L" else trip[2])
+    else:
+        fun = model.solid_l_fluid if m_in == "L" else model.solid_t_fluid
+        trip = fun(al, rho_f, rho_s, v_f, v_l, v_t)
+        sel = trip[2] if helper == "tr" else (trip[0] if m_out == "L" else trip[1])
+    v_in = v_f if kind == "fs" else (v_l if m_in == "L" else v_t)
+    if helper == "tr":
+        v_out = (v_l if m_out == "L" else v_t) if kind == "fs" else v_f
+        rho_in, rho_out = (rho_f, rho_s) if kind == "fs" else (rho_s, rho_f)
+        ratio = (rho_in * v_in) / (rho_out * v_out)
+    else:
+        v_out = v_f if kind == "fs" else (v_l if m_out == "L" else v_t)
+        ratio = v_in / v_out
+    return sel * ratio if unit == "displacement" else sel
+
+
 nhelp_mat = 12 if Q else 120
 help_err = {}
 for mi in range(nhelp_mat):
     mat = mats[(mi * 7) % len(mats)] if mi >= 10 else mats[mi]
     rho_f, v_f, rho_s, v_l, v_t = mat
-    fluid = arim.Material(longitudinal_vel=v_f, density=rho_f, state_of_matter="liquid")
-    solid = arim.Material(longitudinal_vel=v_l, transverse_vel=v_t, density=rho_s, state_of_matter="solid")
+    if mi % 3 == 0:
+        fluid = arim.Material(longitudinal_vel=v_f, density=rho_f, state_of_matter="liquid")
+        solid = arim.Material(longitudinal_vel=v_l, transverse_vel=v_t, density=rho_s, state_of_matter="solid")
+        chk.count(material_objects="fresh")
+    else:
+        # history: the SAME Material objects, their public attributes updated in place (a calibration loop);
+        # the helpers must answer for the properties the materials have when they are called
+        fluid.longitudinal_vel, fluid.density = v_f, rho_f
+        solid.longitudinal_vel, solid.transverse_vel, solid.density = v_l, v_t, rho_s
+        chk.count(material_objects="same objects, attributes updated in place")
     fl_tok = (rho_f, v_f, 0.0)
     so_tok = (rho_s, v_l, v_t)
     for helper in ("tr", "rf"):
@@ -399,22 +429,7 @@ for mi in range(nhelp_mat):
                                 al = alphas.astype(complex) if fc else alphas
                                 hname = "fluid_solid" if kind == "fs" else ("solid_l_fluid" if m_in == "L" else "solid_t_fluid")
                                 hcond = cond_of(three_angles(hname, al, mat), mat)
-                                if kind == "fs":
-                                    trip = model.fluid_solid(al, rho_f, rho_s, v_f, v_l, v_t)
-                                    sel = trip[0] if helper == "rf" else (trip[1] if m_out == "L" else trip[2])
-                                else:
-                                    fun = model.solid_l_fluid if m_in == "L" else model.solid_t_fluid
-                                    trip = fun(al, rho_f, rho_s, v_f, v_l, v_t)
-                                    sel = trip[2] if helper == "tr" else (trip[0] if m_out == "L" else trip[1])
-                                v_in = c_inc
-                                if helper == "tr":
-                                    v_out = (v_l if m_out == "L" else v_t) if kind == "fs" else v_f
-                                    rho_in, rho_out = (rho_f, rho_s) if kind == "fs" else (rho_s, rho_f)
-                                    ratio = (rho_in * v_in) / (rho_out * v_out)
-                                else:
-                                    v_out = v_f if kind == "fs" else (v_l if m_out == "L" else v_t)
-                                    ratio = v_in / v_out
-                                want = sel * ratio if unit == "displacement" else sel
+                                want = expected_helper(helper, kind, m_in, m_out, unit, al, mat)
                                 r = np.abs(got - want) / np.maximum(1.0, np.abs(want))
                                 ok = (r <= 1e-13) | (np.isnan(np.abs(got)) & np.isnan(np.abs(want)))
                                 max_res["select"] = max(max_res["select"], float(np.nanmax(r)) if not np.all(np.isnan(r)) else 0.0)
@@ -423,6 +438,7 @@ for mi in range(nhelp_mat):
                                     report(f"select:{combo}:{unit}", "the helper does not return the selected coefficient times the documented ratio",
                                            dict(predicate="at_interface_select", helper=helper, kind=kind, mode_inc=m_in, mode_out=m_out,
                                                 unit=unit, force_complex=fc, alpha=float(alphas[i]).hex(), material=mat,
+                                                material_objects="fresh" if mi % 3 == 0 else "updated in place after earlier calls",
                                                 got=complex(got[i]), expected=complex(want[i])), True)
                             if err is None and fc:
                                 # complex angle dtype with force_complex=False is the same request as
@@ -463,6 +479,47 @@ for mi in range(nhelp_mat):
         except ValueError:
             pass
         n_eval += 1
+
+# large angle arrays (every ray of a big TFM grid in one call): the helper is a pointwise function of the
+# angle, so the answer for each entry of a large array is the selected coefficient for that entry
+nlarge = 2 if Q else 12
+for li in range(nlarge):
+    mat = mats[int(rng.integers(0, len(mats)))]
+    rho_f, v_f, rho_s, v_l, v_t = mat
+    fluid = arim.Material(longitudinal_vel=v_f, density=rho_f, state_of_matter="liquid")
+    solid = arim.Material(longitudinal_vel=v_l, transverse_vel=v_t, density=rho_s, state_of_matter="solid")
+    helper, kind = str(rng.choice(["tr", "rf"])), str(rng.choice(["fs", "sf"]))
+    m_in, m_out, unit = str(rng.choice(list("LT"))), str(rng.choice(list("LT"))), str(rng.choice(["stress", "displacement"]))
+    if help_err.get(f"{helper}:{kind}:{m_in}{m_out}", "value") != "value":
+        continue
+    fc = bool(rng.integers(0, 2))
+    shape = (int(rng.integers(3, 130)), int(rng.integers(1500, 5000))) if li % 2 == 0 else (int(rng.integers(2 ** 17 + 1, 2 ** 19)),)
+    big = rng.uniform(0.0, 0.3, size=shape)        # below every critical angle of the generated materials? not needed: compared pointwise
+    m_inc, m_oth = (fluid, solid) if kind == "fs" else (solid, fluid)
+    kw = dict(interface_kind=KINDS[kind], material_inc=m_inc, mode_inc=MODES[m_in], mode_out=MODES[m_out],
+              angles_inc=big.copy(), force_complex=fc, unit=unit)
+    got = (model.transmission_at_interface(material_out=m_oth, **kw) if helper == "tr"
+           else model.reflection_at_interface(material_against=m_oth, **kw))
+    got = np.asarray(got)
+    want = expected_helper(helper, kind, m_in, m_out, unit, big.astype(complex) if fc else big, mat)
+    chk.count(large_array=f"{len(shape)}-d")
+    n_eval += big.size
+    okb = got.shape == big.shape
+    if okb:
+        with np.errstate(all="ignore"):
+            r = np.abs(got - want) / np.maximum(1.0, np.abs(want))
+        okm = (r <= 1e-13) | (np.isnan(np.abs(got)) & np.isnan(np.abs(want)))
+        okb = bool(np.all(okm))
+    if not okb:
+        where = tuple(int(x) for x in np.argwhere(~okm)[-1]) if got.shape == big.shape else None
+        report(f"select-large:{helper}:{kind}:{m_in}{m_out}:{unit}",
+               f"on an angle array of shape {shape} the helper does not return the selected coefficient for every entry",
+               dict(predicate="at_interface_select", helper=helper, kind=kind, mode_inc=m_in, mode_out=m_out, unit=unit,
+                    force_complex=fc, material=mat, shape=list(shape), returned_shape=list(got.shape), last_bad_index=where,
+                    alpha=(float(big[where]).hex() if where is not None else None),
+                    got=(complex(got[where]) if where is not None else None),
+                    expected=(complex(want[where]) if where is not None else None),
+                    bad_entries=(int(np.count_nonzero(~okm)) if got.shape == big.shape else None)), True)
 
 # --------------------------------------------------------------------------- run the model
 outs = drv.run([j[0] for j in jobs])
